@@ -2,6 +2,8 @@ package main
 
 import (
 	"fmt"
+	"os"
+	"time"
 
 	rt "verif.local/rt"
 )
@@ -67,7 +69,21 @@ func formatSchema(g *Gen, depth int) M {
 	case 5:
 		return M{"allOf": []any{formatSchema(g, depth-1), g.Schema(depth - 1)}}
 	default:
-		return M{"type": "object", "patternProperties": M{pick(r, ppPatterns[:5]): formatSchema(g, depth-1)}, "dependencies": M{pick(r, propNames): formatSchema(g, depth-1)}}
+		deps := M{pick(r, propNames): formatSchema(g, depth-1)}
+		if r.Chance(600) {
+			// several members with a dependency each (schema-valued and list-valued): work queued per member
+			for i := 0; i < r.Range(1, 2); i++ {
+				k := pick(r, propNames)
+				if _, dup := deps[k]; !dup {
+					if r.Chance(500) {
+						deps[k] = []any{pick(r, propNames)}
+					} else {
+						deps[k] = formatSchema(g, depth-1)
+					}
+				}
+			}
+		}
+		return M{"type": "object", "patternProperties": M{pick(r, ppPatterns[:5]): formatSchema(g, depth-1)}, "dependencies": deps}
 	}
 }
 
@@ -106,7 +122,20 @@ func formatInstance(g *Gen, s M, depth int) any {
 		if ap, ok := s["additionalProperties"].(M); ok {
 			o["z"] = formatInstance(g, ap, depth+1)
 		}
-		if pp, ok := s["patternProperties"].(M); ok {
+		if deps, ok := s["dependencies"].(M); ok {
+			for _, k := range sortedKeys(deps) {
+				if sub, ok := deps[k].(M); ok {
+					if ps, ok := sub["properties"].(M); ok && ps[k] != nil {
+						o[k] = formatInstance(g, ps[k].(M), depth+1)
+						continue
+					}
+					o[k] = formatInstance(g, sub, depth+1)
+				} else {
+					o[k] = 1
+				}
+			}
+		}
+		if pp, ok := s["patternProperties"].(M); ok && s["dependencies"] == nil {
 			for _, k := range sortedKeys(pp) {
 				if sub, ok := pp[k].(M); ok {
 					for _, name := range propNames {
@@ -271,6 +300,21 @@ func genC11(seed uint64, withSpec bool) *Scenario {
 			add(Op{Kind: pick(r, []string{KAgainst, KAgainst, KSchemaRec}), Schema: js(M{"type": "object", "required": req}), Data: js(inst), OrderSeed: orderSeedFor(r)}, "suffix")
 			continue
 		}
+		if r.Chance(120) {
+			// revealer: dependencies on members the data does not have, beside / inside a composition (several props
+			// validators alive at once): any leftover "member present" bookkeeping shows as a spurious dependency error
+			dep := M{"dependencies": M{pick(r, propNames): []any{"z"}, pick(r, propNames): []any{"y"}}}
+			sch := M{pick(r, []string{"allOf", "anyOf", "oneOf"}): []any{dep, M{}}}
+			if r.Chance(300) {
+				sch = dep
+			}
+			inst := M{}
+			if r.Chance(500) {
+				inst[pick(r, []string{"q", "a", "e"})] = 1
+			}
+			add(Op{Kind: pick(r, []string{KAgainst, KAgainst, KSchemaRec}), Schema: js(sch), Data: js(inst), OrderSeed: orderSeedFor(r)}, "suffix")
+			continue
+		}
 		if r.Chance(800) {
 			add(v.schemaOp(g, []string{KAgainst, KAgainst, KSchemaRec, KSchemaNR}), "suffix")
 		} else {
@@ -338,6 +382,9 @@ func runC11(sc *Scenario, keepLog bool) *RunReport {
 	}
 	var h uint64 = 1469598103934665603
 	for _, k := range ks {
+		if os.Getenv("VERIF_DEBUG") != "" {
+			fmt.Fprintf(os.Stderr, "DEBUG C11 k=%d of %d at %s\n", k, n, time.Now().Format("15:04:05.000"))
+		}
 		c := sc.Clone()
 		c.Tasks[0][vi].Fault = &Fault{Kind: "checker-panic", K: k}
 		rep := runHistory(c, sharedHistoryOracle, keepLog, false)
@@ -409,9 +456,9 @@ func init() {
 			sc := genC11(mixSeed(seed, uint64(idx)), withSpec)
 			if withSpec {
 				// a whole-specification victim calls the registry hundreds of times and costs 0.3 s per execution
-				sc.Params = map[string]any{"max_k": 6.0}
+				sc.Params = map[string]any{"max_k": 16.0}
 				if tier == "thorough" {
-					sc.Params["max_k"] = 24.0
+					sc.Params["max_k"] = 64.0
 				}
 			}
 			return sc
